@@ -861,9 +861,13 @@ def _map1(fn_scalar, out_dtype):
         if isinstance(a, NDArray):
             f = a.fn
             return NDArray(a.shape, out_dtype or a.dtype, lambda *i: fn_scalar(it, f(*i)))
+        if isinstance(a, SymList):
+            return fn(it, [from_nested(it, a)], kw)
         xs = None if (z3.is_expr(a) or isinstance(a, (bool, int, float))) else M.try_iterate(it, a)
         if xs is not None:
             return fn(it, [from_nested(it, xs)], kw)
+        if not (z3.is_expr(a) or isinstance(a, (bool, int, float))):
+            raise Unsupported('element-wise numpy function applied to %r' % (a,))
         return fn_scalar(it, a)
     return fn
 
